@@ -21,6 +21,9 @@ type authCase struct {
 	Pos     int       `json:"pos"`
 	Kind    string    `json:"kind"`
 	Control bool      `json:"control"` // when true, Mutant is the unmutated E (positive control: must change balances)
+	// function-level case (validator sub-tests): one entry offered at height H, RCD-e active above 1000
+	Fn *Entry `json:"fn,omitempty"`
+	H  uint32 `json:"h,omitempty"`
 }
 
 func balancesOnly(d Dump) string {
@@ -319,6 +322,14 @@ func TestC05(t *testing.T) {
 	defer st.Flush()
 	var rc authCase
 	if loadReplay(t, &rc) {
+		if rc.Fn != nil {
+			fat2.Fat2RCDEActivation = 1000
+			ierr, rerr := implValidate(*rc.Fn, rc.H), refValidate(*rc.Fn, rc.H, 1000)
+			if ierr == nil && rerr != nil {
+				fail(st, t, fmt.Sprintf("pegnetd accepts an entry at height %d that the reference FAT-103 validator rejects (%v)", rc.H, rerr), &rc)
+			}
+			return
+		}
 		if msg := checkAuth(&rc); msg != "" {
 			fail(st, t, msg, &rc)
 		}
